@@ -191,6 +191,10 @@ func runC11(c *Ctx) {
 				s.Do(c, EOp{Kind: "obs", Args: []string{"pol", "p", "p"}})
 				s.Do(c, EOp{Kind: "obs", Args: []string{"pol", "g", "g"}})
 				s.Do(c, EOp{Kind: "obs", Args: []string{"adapter"}})
+				for _, u := range []string{"alice", "bob"} {
+					s.Do(c, EOp{Kind: "haslink", PType: "g", Args: []string{u, "admin"}})
+				}
+				s.Do(c, EOp{Kind: "enf", Req: []V{VS("alice"), VS("data2"), VS("write")}})
 				after := memoryOf(s)
 				c.Evals++
 				c.Count("fault_result="+obs, 1)
@@ -217,6 +221,16 @@ func runC11(c *Ctx) {
 			// something new to load: written to the adapter behind the enforcer's back is not expressible in the
 			// protocol, so switch auto-save off, change memory, and reload the old adapter contents
 			s.Do(c, EOp{Kind: "set", Flag: "autosave", On: false})
+			// memory and store now drift apart: what is listed first in memory is not what the store lists first,
+			// so rules of a rejected load that leak into memory are visible
+			for _, r := range cloneRules(s.E.GetModel()["p"]["p"].Policy) {
+				s.Do(c, EOp{Kind: "rm", Sec: "p", PType: "p", Rule: r})
+				break
+			}
+			for _, r := range cloneRules(s.E.GetModel()["g"]["g"].Policy) {
+				s.Do(c, EOp{Kind: "rm", Sec: "g", PType: "g", Rule: r})
+				break
+			}
 			s.Do(c, EOp{Kind: "add", Sec: "p", PType: "p", Rule: []string{"zed", "data9", "read"}})
 			s.Do(c, EOp{Kind: "add", Sec: "g", PType: "g", Rule: []string{"zed", "admin"}})
 			before := memoryOf(s)
